@@ -119,8 +119,15 @@ func ruleSharedHashState(c *Ctx, rule string) {
 			}
 			v := w.resolveLoad(call.Call.Value)
 			shared := ""
-			if _, f, isL := fieldLoad(v); isL {
+			if base, f, isL := fieldLoad(v); isL {
 				shared = "field " + f.Name()
+				// a field of an object taken out of a sync.Pool: owned by this invocation until
+				// it is put back
+				org := map[string]bool{}
+				w.ptrOrigins(base, 5, map[ssa.Value]bool{}, org)
+				if len(org) == 1 && org["pool"] {
+					shared = ""
+				}
 			} else if fv, isFV := v.(*ssa.FreeVar); isFV {
 				shared = "captured variable " + fv.Name()
 			} else if u, isU := v.(*ssa.UnOp); isU {
